@@ -55,3 +55,48 @@ Theorem C01_stale_lock_refuted :
     TM.decided s i = Some v /\ TM.decided s j = Some w /\ v <> w.
 Proof. exact Proofs_Tendermint.agreement_with_stale_lock_restart_refuted. Qed.
 Print Assumptions C01_stale_lock_refuted.
+
+(* ================================================================== *)
+(* Part B: the network of engine models (Model_ConsensusNet.v: n copies of the
+   model of consensus.go, Byzantine slots sending arbitrary votes, any delivery
+   order / loss / duplication, any timeouts and callbacks) refines the
+   protocol, hence agrees.
+
+   [run_net n byz blocks evs]: the network after ANY event list (illegal
+   events — a vote that nobody sent, a Byzantine vote signed for a correct slot —
+   are ignored); [decided_of net i]: the block engine i handed to Finalize;
+   [correct n byz i]: i < n and not Byzantine; [nbyz n byz]: number of Byzantine
+   slots; [soup byz net]: all votes sent by correct engines or injected by
+   Byzantine slots; [count_precommits sp n r b]: number of slots < n with a
+   precommit for b of round r in sp. *)
+From Coq Require Import ZArith.
+From Goloop Require Import Model_ConsensusNode Model_ConsensusNet.
+From Goloop Require Proofs_ConsensusNet.
+
+(* the property at full strength (all event lists, crash points inside events included) *)
+Definition C01_full_statement : Prop :=
+  forall (n : nat) (byz : nat -> bool) (blocks : list blk) (evs : list nev),
+    (3 * nbyz n byz < n)%nat ->
+    forall i j v w, correct n byz i -> correct n byz j ->
+      decided_of (run_net n byz blocks evs) i = Some v ->
+      decided_of (run_net n byz blocks evs) j = Some w -> v = w.
+
+(* proved for histories without crashes ([no_crash]: no crash point inside an
+   event, no crash event, every engine started once) *)
+Theorem C01_agreement_partial_no_crash :
+  forall (n : nat) (byz : nat -> bool) (blocks : list blk) (evs : list nev),
+    no_crash evs = true -> (3 * nbyz n byz < n)%nat ->
+    forall i j v w, correct n byz i -> correct n byz j ->
+      decided_of (run_net n byz blocks evs) i = Some v ->
+      decided_of (run_net n byz blocks evs) j = Some w -> v = w.
+Proof. exact Proofs_ConsensusNet.agreement_no_crash. Qed.
+Print Assumptions C01_agreement_partial_no_crash.
+
+Theorem C01_finalize_needs_quorum_partial_no_crash :
+  forall (n : nat) (byz : nat -> bool) (blocks : list blk) (evs : list nev),
+    no_crash evs = true -> (3 * nbyz n byz < n)%nat ->
+    forall i b, correct n byz i -> decided_of (run_net n byz blocks evs) i = Some b ->
+      exists r, (0 <= r)%Z /\
+        over23 (count_precommits (soup byz (run_net n byz blocks evs)) n r b) n = true.
+Proof. exact Proofs_ConsensusNet.finalize_needs_quorum_no_crash. Qed.
+Print Assumptions C01_finalize_needs_quorum_partial_no_crash.
